@@ -438,6 +438,7 @@ func (x *xl) intFunc(w *bytes.Buffer, sp fnSpec) {
 	fd, ok := x.funcs[sp.key]
 	if !ok {
 		x.fail(item, "function not found")
+		fmt.Fprintf(w, "(* translation broken: function not found *)\nDefinition f_%s (a b c d : Z) := 0.\n\n", strings.ReplaceAll(sp.key, ".", "_"))
 		return
 	}
 	e := &env{x: x, item: item, vars: map[string]string{}, ok: true}
@@ -495,19 +496,38 @@ func (x *xl) intFunc(w *bytes.Buffer, sp fnSpec) {
 		}
 	}
 	body := e.block(fd.Body.List, ret, cont)
-	if !e.ok {
-		return
-	}
 	name := "f_" + strings.ReplaceAll(sp.key, ".", "_")
 	ps := ""
 	if len(params) > 0 {
 		ps = " (" + strings.Join(params, " ") + " : Z)"
 	}
+	if !e.ok {
+		// keep the generated file compilable: a stub of the right type; Tie/TranslationOk.v fails on it
+		stub := "0"
+		if sp.update {
+			stub = cont()
+		} else if res := fd.Type.Results; res != nil && len(res.List) > 0 {
+			if bt, ok := x.info.Types[res.List[0].Type].Type.Underlying().(*types.Basic); ok && bt.Info()&types.IsBoolean != 0 {
+				stub = "false"
+			}
+		}
+		fmt.Fprintf(w, "(* translation broken: stub *)\nDefinition %s%s := %s.\n\n", name, ps, stub)
+		return
+	}
 	fmt.Fprintf(w, "Definition %s%s :=\n  %s.\n\n", name, ps, body)
 }
 
 // dispatch: the switch of Client.MeasurementData as (data type, slot field, slot type)
-func (x *xl) dispatch(w *bytes.Buffer) {
+func (x *xl) dispatch(out *bytes.Buffer) {
+	n0 := len(x.errs)
+	w := &bytes.Buffer{}
+	defer func() {
+		if len(x.errs) > n0 {
+			out.WriteString("(* translation broken: stub *)\nDefinition dispatch_table : list (Z * (string * string)) := [].\n\n")
+		} else {
+			out.Write(w.Bytes())
+		}
+	}()
 	item := "Client.MeasurementData"
 	fd, ok := x.funcs[item]
 	if !ok {
@@ -639,6 +659,16 @@ func main() {
 	x.dispatch(f)
 	extra(x, f, buf)
 
+	bk := buf("Broken.v")
+	bk.WriteString("(* GENERATED: the items of /repo the translator could not render (empty when everything was recognised). *)\n")
+	bk.WriteString("From Coq Require Import List String.\nImport ListNotations.\nOpen Scope string_scope.\n\nDefinition translation_broken : list string := [")
+	for i, e := range x.errs {
+		if i > 0 {
+			bk.WriteString("; ")
+		}
+		bk.WriteString(coqString(e))
+	}
+	bk.WriteString("].\n")
 	if err := os.MkdirAll(out, 0o755); err != nil {
 		fmt.Fprintln(os.Stderr, err)
 		os.Exit(2)
